@@ -133,6 +133,7 @@ class C16(Check):
     _memo = {}
 
     def selftest(self):
+        gens.tame_tqdm()
         pop = {"t1": [[1, None, "x"], [1, None, "x"], [2, 3, ""]], "t2": [], "t3": [[1, 1.5]]}
         assert run_query(pop, "select a from t1") == ("ok", ["(1,)", "(1,)", "(2,)"])
         assert run_query(pop, "select a from t1 where b is null") != run_query(pop, "select a from t1 where b = null")
@@ -200,6 +201,7 @@ class C16(Check):
     def run_case(self, case):
         # Hypothesis repeats examples fairly often with this generator; a fix costs seconds, so identical cases are
         # answered from a per-process memo (same Outcome, deterministic)
+        gens.tame_tqdm()
         key = digest(case)
         hit = self._memo.get(key)
         if hit is not None:
